@@ -213,63 +213,91 @@ def fam_prank(rnd: random.Random, length: int | None = None, ninputs: int = 4):
         cheat("prank(address)", [[("PUSH", 0xBEEF)]])
         + [("PUSH", 128), ("PUSH", 0), ("PUSH", 0), ("PUSH", 0), ("PUSH", 0), ("PUSH", ECHO2), ("PUSH", GAS), "CALL", "POP",
            ("PUSH", 128), ("PUSH", 0), "RETURN"])
-    for _ in range(n):
-        ops = ["call", "call", "staticcall", "create", "cheatcall", "nested"]
-        if not active:
-            ops += ["prank1", "prank2", "startPrank1", "startPrank2", "prank1"]
-        else:
-            ops += ["stopPrank"]
-        if rnd.random() < 0.1:
-            ops.append("stopPrank")
-        op = rnd.choice(ops)
-        desc.append(op)
+    # `active`: True / False / None (differs between the arms of an earlier symbolic branch)
+    def emit(op) -> list:
+        nonlocal out
+        code = []
         if op in ("prank1", "startPrank1"):
-            body += cheat(f"{op[:-1]}(address)", [cd(0)])
-            active = True
+            code += cheat(f"{op[:-1]}(address)", [cd(0)])
         elif op in ("prank2", "startPrank2"):
-            body += cheat(f"{op[:-1]}(address,address)", [cd(0), cd(1)])
-            active = True
+            code += cheat(f"{op[:-1]}(address,address)", [cd(0), cd(1)])
         elif op == "stopPrank":
-            body += cheat("stopPrank()", [])
-            active = False
+            code += cheat("stopPrank()", [])
         elif op in ("call", "staticcall", "nested"):
             target = PRANKER if op == "nested" else ECHO
             kind = "STATICCALL" if op == "staticcall" else "CALL"
-            body += [("PUSH", 128), ("PUSH", 0x1000 + out), ("PUSH", 0), ("PUSH", 0)]
+            code += [("PUSH", 128), ("PUSH", 0x1000 + out), ("PUSH", 0), ("PUSH", 0)]
             if kind == "CALL":
-                body += [("PUSH", 0)]
-            body += [("PUSH", target), ("PUSH", GAS), kind, "POP"]
+                code += [("PUSH", 0)]
+            code += [("PUSH", target), ("PUSH", GAS), kind, "POP"]
             out += 128
-            if active and "start" not in "".join(d for d in desc if d.startswith(("prank", "start")))[-11:]:
-                pass
-            # a single-use prank is consumed by this call
-            if active and _last_prank(desc) in ("prank1", "prank2"):
-                active = False
         elif op == "create":
             init = assemble(["CALLER", ("PUSH", 0), "SSTORE", "ORIGIN", ("PUSH", 1), "SSTORE",
                              # runtime: returns (SLOAD(0), SLOAD(1))
                              ("PUSH", 10), ("PUSHL", "rt"), ("PUSH", 0), "CODECOPY", ("PUSH", 10), ("PUSH", 0), "RETURN",
                              ("MARK", "rt"), ("RAW", assemble([("PUSH", 0), "SLOAD", ("PUSH", 0), "MSTORE", ("PUSH", 32), ("PUSH", 0), "RETURN"]))])
-            lab = f"i{len(desc)}"
-            body += [("PUSHN", 2, len(init)), ("PUSHL", lab), ("PUSH", 0x2000), "CODECOPY", ("PUSHN", 2, len(init)), ("PUSH", 0x2000), ("PUSH", 0), "CREATE"]
+            lab = f"i{len(desc)}_{out}"
+            code += [("PUSHN", 2, len(init)), ("PUSHL", lab), ("PUSH", 0x2000), "CODECOPY", ("PUSHN", 2, len(init)), ("PUSH", 0x2000), ("PUSH", 0), "CREATE"]
             # ask the created contract who created it (its runtime returns SLOAD(0) = the creator it saw)
-            body += [("PUSH", 32), ("PUSH", 0x1000 + out), ("PUSH", 0), ("PUSH", 0), ("PUSH", 0), "DUP6", ("PUSH", GAS), "CALL", "POP", "POP"]
+            code += [("PUSH", 32), ("PUSH", 0x1000 + out), ("PUSH", 0), ("PUSH", 0), ("PUSH", 0), "DUP6", ("PUSH", GAS), "CALL", "POP", "POP"]
             out += 32
-            body.append(("DATA", lab, init))
-            if active and _last_prank(desc) in ("prank1", "prank2"):
-                active = False
+            code.append(("DATA", lab, init))
         elif op == "cheatcall":
-            body += cheat("load(address,bytes32)", [[("PUSH", ECHO)], [("PUSH", 0)]], ret_words=1)
+            code += cheat("load(address,bytes32)", [[("PUSH", ECHO)], [("PUSH", 0)]], ret_words=1)
+        return code
+
+    nbranch = 0
+    for _ in range(n):
+        ops = ["call", "call", "staticcall", "create", "cheatcall", "nested"]
+        if active is False:
+            ops += ["prank1", "prank2", "startPrank1", "startPrank2", "prank1"]
+        else:
+            ops += ["stopPrank"]
+        if rnd.random() < 0.1:
+            ops.append("stopPrank")
+        if nbranch < 2:
+            ops += ["branch", "branch"]
+        op = rnd.choice(ops)
+        if op == "branch":
+            # the two arms of a branch on a symbolic calldata bit do different things to the prank state:
+            # each path has its own prank record
+            nbranch += 1
+            if active is False:
+                arms = [[], ["call"], ["prank1"], ["startPrank1"], ["prank1", "call"], ["startPrank2", "call"]]
+            else:
+                arms = [[], ["call"], ["stopPrank"], ["call", "call"], ["stopPrank", "call"]]
+            a1, a2 = rnd.sample(arms, 2)
+            lt, le = f"bt{nbranch}", f"be{nbranch}"
+            body += [("PUSH", 64), "CALLDATALOAD", ("PUSH", 1), "AND", ("PUSHL", lt), "JUMPI"]
+            for o in a2:
+                body += emit(o)
+            body += [("PUSHL", le), "JUMP", ("LABEL", lt)]
+            for o in a1:
+                body += emit(o)
+            body += [("LABEL", le)]
+            desc.append(f"branch({'+'.join(a1) or '-'}|{'+'.join(a2) or '-'})")
+            active = None
+            continue
+        desc.append(op)
+        body += emit(op)
+        if op in ("prank1", "startPrank1", "prank2", "startPrank2"):
+            active = True
+        elif op == "stopPrank":
+            active = False
+        elif op in ("call", "staticcall", "nested", "create"):
+            # a single-use prank is consumed by this call
+            if active is True and _last_prank(desc) in ("prank1", "prank2"):
+                active = False
     data = [x for x in body if isinstance(x, tuple) and x[0] == "DATA"]
     body = [x for x in body if not (isinstance(x, tuple) and x[0] == "DATA")]
     tail = []
     for _, lab, init in data:
         tail += [("MARK", lab), ("RAW", init)]
     code = assemble(body + [("PUSHN", 2, max(out, 32)), ("PUSHN", 2, 0x1000), "RETURN"] + tail)
-    names = ["cd0", "cd1"]
+    names = ["cd0", "cd1", "cd2"]
     prog = Prog(accounts={TARGET: code, ECHO: echo_runtime(), ECHO2: echo_runtime(), PRANKER: pranker_code},
                 calldata=[Sym(nm, 256) for nm in names], name="prank-" + "-".join(desc), meta={"history": desc})
-    inputs = [{"cd0": rnd.choice([0x1111, 0xA, CALLER, 2**160 - 1]), "cd1": rnd.choice([0x2222, 0xB, 1])} for _ in range(ninputs)]
+    inputs = [{"cd0": rnd.choice([0x1111, 0xA, CALLER, 2**160 - 1]), "cd1": rnd.choice([0x2222, 0xB, 1]), "cd2": k % 2} for k in range(max(ninputs, 4))]
     return prog, inputs
 
 
